@@ -19,8 +19,10 @@ RULE = (
     "normalisation, observations) configured. Oracles: total == sum(terms) (1e-12 rel); unconfigured terms == 0.0 "
     "exactly; dyn term == mean_i sum_c w_c r_c(point_i)^2 with r from numpy closed forms point by point; metamorphic: "
     "scaling weight component c by lambda adds (lambda-1) w_c mean r_c^2, batch permutation invariance, halves average. "
-    "Non-trivial = batch>=2, row sums and column sums of the residual matrix pairwise distinct (>1e-6) and, for vector "
-    "weights, weights not all equal."
+    "Non-trivial = batch>=2, row sums and column sums of the residual matrix pairwise distinct (>1e-6; for batches of more "
+    "than 16 rows: at least 90% of the sorted row sums separated) and, for vector weights, weights not all equal. "
+    "Sub-check large_batches: the same oracle on batches of 33..2050 rows (size classes around and beyond the block sizes "
+    "128 and 1024 that chunked evaluation would use), coordinates from a seeded lattice."
 )
 ASSUMPTIONS = ["tolerance 1e-9*(1+sum|terms|) in x64", "explicit *Batch objects; generator-produced batches are covered by C08/C14"]
 TOL = 1e-9
@@ -80,8 +82,9 @@ def run_case(case):
         return fail("dyn-term-not-linear-in-weight", {"got": g2, "want": expect}, labels=labels)
     if n >= 2 and spec.get("param_batch") is None and spec.get("obs") is None and spec["kind"] != "nonstatio":
         key = "t" if spec["kind"] == "ode" else "x"
-        perm = case["perm"][:n]
-        order = sorted(range(n), key=lambda i: perm[i])
+        perm = case["perm"]
+        # a permutation of 0..n-1 that is a pure function of the case (large batches: a multiplicative shuffle)
+        order = sorted(range(n), key=(lambda i: perm[i]) if n <= len(perm) else (lambda i: ((i + 1 + perm[0]) * 2654435761) % 4294967291))
         spec3 = copy.deepcopy(spec)
         spec3["batch"][key] = [spec["batch"][key][i] for i in order]
         g3 = float(_evaluate(spec3)[1]["dyn_loss"])
@@ -99,8 +102,10 @@ def run_case(case):
                 return fail("dyn-term-not-average-of-halves", {"halves": halves, "whole": got}, labels=labels)
             labels.append("halves")
     rs, cs = R.sum(axis=1), (R**2).sum(axis=0)
-    dist = lambda v: all(abs(a - b) > 1e-6 for i, a in enumerate(v) for b in v[i + 1:])
-    nt = n >= 2 and dist(list(rs)) and dist(list(cs)) and (not isinstance(w, list) or len(set(w)) > 1)
+    dist = lambda v, frac=1.0: len(v) < 2 or float(np.mean(np.diff(np.sort(np.asarray(v))) > 1e-6)) >= frac
+    nt = n >= 2 and dist(rs, 1.0 if n <= 16 else 0.9) and dist(cs) and (not isinstance(w, list) or len(set(w)) > 1)
+    if n > 16:
+        labels.append("large-batch" + (":>1024" if n > 1024 else ":>128" if n > 128 else ""))
     labels.append(f"c{c}")
     return ok(nontrivial=nt, labels=labels, detail={"dyn": got, "n": n, "c": c})
 
@@ -116,10 +121,25 @@ def strat():
     return s()
 
 
+def strat_big():
+    from hypothesis import strategies as st
+
+    @st.composite
+    def s(draw):
+        spec = draw(single_spec(want=("eq",), param_batch="maybe", big="always"))
+        return {"spec": spec, "comp": draw(st.integers(0, 2)), "perm": [draw(st.integers(0, 10**6))]}
+
+    return s()
+
+
 def subchecks():
     return [
         SubCheck(name="assembly_and_dynamic_term", mode="given", strategy=strat, run_case=run_case,
                  counts={"quick": 200, "thorough": 4000}, shards={"quick": 8, "thorough": 16}, clear_every=60,
                  min_nontrivial_frac=0.3,
                  doc="total/terms consistency, exact zeros, dynamic term vs point-by-point numpy reference, metamorphic relations"),
+        SubCheck(name="large_batches", mode="given", strategy=strat_big, run_case=run_case,
+                 counts={"quick": 32, "thorough": 600}, shards={"quick": 8, "thorough": 16}, clear_every=8,
+                 min_nontrivial_frac=0.3,
+                 doc="the same oracle on batches of 33..2050 rows (block-size boundaries of chunked evaluation)"),
     ]
